@@ -165,7 +165,9 @@ pub fn run(cfg: &Cfg) -> i32 {
         };
         let client_v = if sent.is_empty() { client_versions(&c.sent) } else { client_versions(&sent) };
         if client_v.is_empty() {
-            rep.violation("harness:client-hello-not-seen", "", wit(json!({})));
+            // in the client-hello-first order the server waits for the client's hello: a client that
+            // sends nothing before it has received the server's hello deadlocks the exchange
+            rep.violation("establish:order:client-sends-no-hello-until-it-received-the-server's", "no client <hello> reached the wire in the order in which the server hello is delivered only after the client's was sent", wit(json!({"actions": sched::actions_json(&c.actions), "establish": format!("{:?}", c.establish)})));
             continue;
         }
         // ---- oracle
